@@ -28,7 +28,7 @@ for _nm, _fam, _tu in [('fault_frame', 'Fault', 'fault'), ('slab_frame', 'Subduc
         outline_fp='all', defines={'MAXP': 1, 'WB_VEC_CAP': 2}, expect_fail=['REACHABILITY-GUARD'], timeout=900))
 UNITS = [
     dict(name='parallel_for', enforce='parallel_for', contracts='c14_parallel_for.c', harness='h_parallel_for',
-         targets=[dict(tu='source/gwb-grid/main.cc', qual='ThreadPool::parallel_for', sig='(lambda at /repo/source/gwb-grid/main.cc', first_of_many=True, filter='', cname='parallel_for')],
+         targets=[dict(tu='source/gwb-grid/main.cc', qual='ThreadPool::parallel_for', sig='(lambda at %s/source/gwb-grid/main.cc' % os.environ.get('GWB_REPO', '/repo'), first_of_many=True, filter='', cname='parallel_for')],
          defines={'MAXP': 8, 'WB_VEC_CAP': 8}, defines_thorough={'MAXP': 16, 'WB_VEC_CAP': 16}, timeout_thorough=1800, expect_fail=['REACHABILITY-GUARD'],
          canaries=[(r'unsigned long n = \(\(end - start\) \+ \(\(unsigned long\)1\)\);', 'unsigned long n = ((end - start));', 'slice computed from end-start instead of end-start+1', 'harmless'),
                    (r'if \(\(i1 < end\)\)', 'if ((i1 + 1 < end))', 'last slice dropped when it has one element')],
